@@ -453,3 +453,113 @@ func TestVF_C09_FailedUpdate(t *testing.T) {
 		}
 	})
 }
+
+// TestVF_C09_Prepended: update messages assembled by the receiver - a window [a..b] to which older
+// events [c..d] (decoded from the wire, with and without a precomputed product) were prepended -
+// applied to witnesses at every index they can serve. The model is the one of runScript.
+func TestVF_C09_Prepended(t *testing.T) {
+	rec := vfh.New(t, "C09")
+	defer rec.Flush()
+	seedLib(t, uint64(rec.Seed())+5)
+	maxN := rec.N(4, 6)
+	item := 0
+	for n := 2; n <= maxN; n++ {
+		hists := c09Histories(n)
+		for hi, targets := range hists {
+			// all histories for n <= 3; a rotating sample for longer ones
+			if n > 3 && (hi+int(rec.Seed()))%(len(hists)/12+1) != 0 {
+				continue
+			}
+			item++
+			if !rec.Mine(item) {
+				continue
+			}
+			h := buildHist(hi+int(rec.Seed()), targets)
+			pk := h.c.kp.Pk
+			for a := 1; a <= n; a++ {
+				for b := a; b <= n; b++ {
+					for c := 0; c < a; c++ {
+						for d := a - 1; d <= b; d++ {
+							if c == 0 && d == 0 {
+								continue // the list would hold only the initial event
+							}
+							for _, how := range []string{"json", "cbor"} {
+								for _, cp := range []bool{true, false} {
+									el, ok := listViaP(h.c.events[c:d+1], how, nil, cp)
+									if !ok {
+										continue
+									}
+									upd := transportMust(h.c.window(a, b, false), how)
+									if _, err := upd.Verify(pk); err != nil {
+										rec.Control(false, "authentic update rejected before Prepend")
+										continue
+									}
+									var err error
+									if ps := vfh.Guard(func() { err = upd.Prepend(el) }); ps != "" {
+										rec.FailT(ps+":Update.Prepend", map[string]any{"targets": targets, "window": []int{a, b}, "list": []int{c, d}})
+										continue
+									}
+									det := map[string]any{"targets": targets, "update_window": []int{a, b}, "prepended_list": []int{c, d}, "transport": how, "list_decoded_with_product": cp}
+									if err != nil {
+										rec.FailT("authentic-older-events-rejected:Update.Prepend", det)
+										continue
+									}
+									overlap := d >= a
+									for p := 0; p <= b; p++ {
+										w := cloneWitness(h.wits[p])
+										rev := h.revokedAt[p]
+										expect := "ok"
+										switch {
+										case p == b:
+											expect = "noop"
+										case c > p+1:
+											expect = "error-too-new"
+										case rev > p && rev <= b:
+											expect = "error-revoked"
+										}
+										snapU := new(big.Int).Set(w.U)
+										var uerr error
+										if ps := vfh.Guard(func() { uerr = w.Update(pk, upd) }); ps != "" {
+											rec.FailT(ps+":Witness.Update(prepended)", det)
+											continue
+										}
+										rec.Case(fmt.Sprintf("prepended/overlap=%v/product=%v/%s", overlap, cp, expect), overlap || cp, fmt.Sprintf("%v|%d|%d|%d|%d|%s|%v|%d", targets, a, b, c, d, how, cp, p))
+										det["witness_at"] = p
+										det["model"] = expect
+										det["err"] = fmt.Sprint(uerr)
+										switch expect {
+										case "ok":
+											if uerr != nil {
+												rec.FailT("valid-update-fails:prepended", det)
+											} else if new(big.Int).Exp(w.U, w.E, pk.N).Cmp(h.c.nus[b]) != 0 || int(w.SignedAccumulator.Accumulator.Index) != b {
+												rec.FailT("non-revoked-witness-invalid-after-update:prepended", det)
+											}
+										case "noop":
+											if uerr != nil || w.U.Cmp(snapU) != 0 {
+												rec.FailT("failed-or-void-update-changes-witness:prepended", det)
+											}
+										case "error-too-new":
+											if uerr == nil {
+												rec.FailT("gap-update-accepted:prepended", det)
+											} else if w.U.Cmp(snapU) != 0 {
+												rec.FailT("failed-or-void-update-changes-witness:prepended", det)
+											}
+										case "error-revoked":
+											if uerr == nil {
+												rec.FailT("revoked-witness-updated-successfully:prepended", det)
+											} else if !errors.Is(uerr, ErrorRevoked) && uerr != ErrorRevoked {
+												rec.FailT("revoked-witness-not-reported-as-revoked:prepended", det)
+											} else if w.U.Cmp(snapU) != 0 {
+												rec.FailT("failed-or-void-update-changes-witness:prepended", det)
+											}
+										}
+									}
+								}
+							}
+						}
+					}
+				}
+			}
+		}
+	}
+}
